@@ -57,7 +57,7 @@ partial def pvalOfJson (j : Json) : Except String PVal := do
         let n ← j.getObjValAs? String "n"
         let s ← j.getObjValAs? Bool "self"
         pure (.callable n s)
-    | "opaque" => do let s ← j.getObjValAs? String "tag"; pure (.opaque s)
+    | "opaque" => do let s ← j.getObjValAs? String "tag"; pure (.foreign s)
     | "ncallable" => do let s ← j.getObjValAs? String "tag"; pure (.ncallable s)
     | _ => throw s!"bad pval tag {t}"
 
@@ -78,7 +78,7 @@ partial def pvalJson : PVal → Json
   | .obj c ps => Json.mkObj [("t", "obj"), ("cls", Json.str c),
       ("p", Json.arr (ps.map (fun p => Json.arr #[Json.str p.1, pvalJson p.2])).toArray)]
   | .callable n s => Json.mkObj [("t", "callable"), ("n", Json.str n), ("self", Json.bool s)]
-  | .opaque s => Json.mkObj [("t", "opaque"), ("tag", Json.str s)]
+  | .foreign s => Json.mkObj [("t", "opaque"), ("tag", Json.str s)]
   | .ncallable s => Json.mkObj [("t", "ncallable"), ("tag", Json.str s)]
 
 /-! #### J <-> JSON (tagged: null, bool, {"i": "123"}, {"f": repr}, "str", [..], {"d": [[k, v], ..]}) -/
